@@ -784,7 +784,7 @@ def check(prop, tier, seed):
             path = write_replay(prop, seed, lines, il2, ml2,
                                 ["the correspondence between model and implementation no longer checks on %d line(s) "
                                  "(first: op line %d); the disagreeing observable is not determined by the property "
-                                 "(it belongs to the model: wire bytes / acceptance of a malformed document)" % (len(corr_only), n),
+                                 "(it belongs to the model: wire bytes / the form of a written document / acceptance of a malformed document)" % (len(corr_only), n),
                                  "search for a failing input: the model-free oracles of this run judged %d evaluations "
                                  "of the implementation and rejected none" % stats["evaluations"],
                                  "so no input is known on which the property fails; it is no longer SHOWN to hold"],
